@@ -58,6 +58,9 @@ def two_roll_cases(chk, rng):
             # the faces: points of the roll contour with y == 0
             base = np.array(g.contour_points)
             fmask = np.abs(base[:, 1]) <= 1e-15
+            if len(up) != len(base) or len(lo) != len(base):
+                return chk.fail('two-contour', f"{name}: the contour lines of the pass have {len(up)} / {len(lo)} vertices, the contour of its groove has {len(base)}: "
+                                f"the pass does not draw the groove it has", data)
             if fmask.any():
                 if np.abs(up[fmask][:, 1] - gap / 2).max() > 1e-12 * scale or np.abs(lo[::-1][fmask][:, 1] + gap / 2).max() > 1e-12 * scale:
                     return chk.fail('two-gap', f"{name}: faces are not separated by exactly the gap {gap}", data)
@@ -83,6 +86,8 @@ def two_roll_cases(chk, rng):
                 if read_first:
                     rpe.reevaluate_cache()
                 upe = np.array(rpe.contour_lines.geoms[0].coords)
+                if len(upe) != len(base):
+                    return chk.fail('two-contour', f"{name}: pass whose height was assigned again: its contour lines have {len(upe)} vertices, the groove's contour {len(base)}", data)
                 want_gap = h2 - 2 * g.depth
                 if abs(float(rpe.gap) - want_gap) > 1e-12 * scale or (fmask.any() and np.abs(upe[fmask][:, 1] - want_gap / 2).max() > 1e-12 * scale):
                     return chk.fail('two-edit', f"{name}: pass built with height={h}, {'all members read, ' if read_first else ''}height assigned {h2}"
@@ -95,6 +100,9 @@ def two_roll_cases(chk, rng):
                 look_at(rpl, html=False)
                 setattr(rpl, member, val)
                 upl = np.array(rpl.contour_lines.geoms[0].coords)
+                if len(upl) != len(base):
+                    return chk.fail('two-contour', f"{name}: pass looked at before {member} was assigned: its contour lines have {len(upl)} vertices, the groove's contour {len(base)}",
+                                    dict(data, history=f'looked at before {member} was assigned'))
                 if abs(float(rpl.gap) - gap) > 1e-12 * scale or abs(float(rpl.height) - h) > 1e-12 * scale or (fmask.any() and np.abs(upl[fmask][:, 1] - gap / 2).max() > 1e-12 * scale):
                     return chk.fail('two-observer', f"{name}: pass constructed without an opening, looked at (repr, __attrs__), then {member} = {val} assigned: gap "
                                     f"{float(rpl.gap)}, height {float(rpl.height)}, faces at {float(upl[fmask][:, 1].max()) if fmask.any() else float('nan')}; "
